@@ -106,6 +106,40 @@ fn lu_stats(a: &[Vec<f64>]) -> (usize, f64) {
     (swaps, pmin / pmax)
 }
 
+/// 1-norm condition number of a square matrix by explicit Gauss-Jordan inversion (sizes <= 12)
+fn cond1(a: &[Vec<f64>]) -> f64 {
+    let n = a.len();
+    let mut m: Vec<Vec<f64>> = a.iter().enumerate().map(|(i, r)| { let mut v = r.clone(); v.extend((0..n).map(|j| if i == j { 1.0 } else { 0.0 })); v }).collect();
+    for j in 0..n {
+        let mut k = j;
+        for i in j + 1..n {
+            if m[i][j].abs() > m[k][j].abs() {
+                k = i;
+            }
+        }
+        m.swap(k, j);
+        let p = m[j][j];
+        if p == 0.0 || !p.is_finite() {
+            return f64::INFINITY;
+        }
+        for c in 0..2 * n {
+            m[j][c] /= p;
+        }
+        for i in 0..n {
+            if i != j {
+                let f = m[i][j];
+                if f != 0.0 {
+                    for c in 0..2 * n {
+                        m[i][c] -= f * m[j][c];
+                    }
+                }
+            }
+        }
+    }
+    let norm1 = |get: &dyn Fn(usize, usize) -> f64| (0..n).map(|c| (0..n).map(|r| get(r, c).abs()).sum::<f64>()).fold(0.0f64, f64::max);
+    norm1(&|r, c| a[r][c]) * norm1(&|r, c| m[r][n + c])
+}
+
 fn gen_matrix(r: &mut Rng, rows: usize, cols: usize) -> (Vec<Vec<f64>>, &'static str) {
     let pattern = r.below(6);
     let mut a = vec![vec![0.0; cols]; rows];
@@ -468,12 +502,17 @@ impl Prop for C13 {
             let (fa, pat) = gen_matrix(rng, rows, cols);
             let (swaps, ratio) = if lsq { lu_stats(&mat_t_mat(&fa)) } else { lu_stats(&fa) };
             if ratio >= if lsq { 0.01 } else { 0.02 } && ratio.is_finite() {
-                found = Some((fa, pat, swaps));
-                break;
+                // "well-conditioned" is the statement's own restriction: the matrix actually eliminated
+                // (A, or A^T A for least squares) must have a 1-norm condition number of at most 1e4
+                let cond = if lsq { cond1(&mat_t_mat(&fa)) } else { cond1(&fa) };
+                if cond <= 1e4 {
+                    found = Some((fa, pat, swaps, cond));
+                    break;
+                }
             }
             ctx.skip("ill-conditioned draw regenerated");
         }
-        let (fa, pat, swaps) = match found {
+        let (fa, pat, swaps, cond) = match found {
             Some(f) => f,
             None => return,
         };
@@ -546,6 +585,10 @@ impl Prop for C13 {
             LAYOUT.with(|l| l.set(layout));
             ctx.eval(1);
             ctx.class("row-permutation");
+            ctx.class(&format!("row-permutation:cond<=1e{}", (cond.max(1.0).log10().ceil() as i32).max(0)));
+            if order == 2 {
+                ctx.class(if 64.0 * f64::EPSILON * cond.max(1.0).powi(3) <= 1e-5 { "row-permutation:second-derivatives-compared" } else { "row-permutation:second-derivatives-left-to-residual-check" });
+            }
             match second {
                 Caught::Ok(Ok((_, x2, _, _, _))) => {
                     let xs = x.iter().fold(0.0f64, |m, v| m.max(v.v.abs()));
@@ -554,19 +597,33 @@ impl Prop for C13 {
                         let names: BTreeSet<String> = u.names().union(&w.names()).cloned().collect();
                         let gs = x.iter().flat_map(|v| v.g.values()).fold(xs, |m, v| m.max(v.abs()));
                         let hs = x.iter().flat_map(|v| v.h.values()).fold(gs, |m, v| m.max(v.abs()));
-                        let mut bad = (u.v - w.v).abs() > 1e-8 * xs.max(1e-300);
+                        // two correct eliminations of the same system in another row order differ by rounding
+                        // amplified by the conditioning, once per derivative order on top of the value (the k-th
+                        // derivative of the solution contains k+1 factors of the inverse); 1/pivot_ratio is the
+                        // conditioning proxy the generator already bounds (of A, or of A^T A for least squares)
+                        let amp = cond.max(1.0);
+                        // beyond 1e-5 of the largest entry the comparison says nothing; that derivative order is
+                        // then left to the residual check above
+                        let tol = |k: i32| (64.0 * f64::EPSILON * amp.powi(k + 1)).max(1e-10);
+                        let mut worst: Option<Value> = None;
+                        let mut bad = tol(0) <= 1e-5 && (u.v - w.v).abs() > tol(0) * xs.max(1e-300);
+                        if bad {
+                            worst = Some(json!({"component": "value", "a": u.v, "b": w.v, "allowed": tol(0) * xs}));
+                        }
                         for n in names.iter() {
-                            if (u.gd(n) - w.gd(n)).abs() > 1e-8 * gs.max(1e-300) {
+                            if tol(1) <= 1e-5 && (u.gd(n) - w.gd(n)).abs() > tol(1) * gs.max(1e-300) {
                                 bad = true;
+                                worst = Some(json!({"component": format!("d/d{}", n), "a": u.gd(n), "b": w.gd(n), "allowed": tol(1) * gs}));
                             }
                             for m in names.iter() {
-                                if (u.hd(n, m) - w.hd(n, m)).abs() > 1e-8 * hs.max(1e-300) {
+                                if tol(2) <= 1e-5 && (u.hd(n, m) - w.hd(n, m)).abs() > tol(2) * hs.max(1e-300) {
                                     bad = true;
+                                    worst = Some(json!({"component": format!("d2/d{}d{}", n, m), "a": u.hd(n, m), "b": w.hd(n, m), "allowed": tol(2) * hs}));
                                 }
                             }
                         }
                         if bad {
-                            ctx.violation(&format!("C13|row-permutation-changes-answer|{}", KINDS[kind]), json!({"case": case(), "permutation": perm, "x": x.iter().map(|v| v.v).collect::<Vec<_>>(), "x_permuted": x2.iter().map(|v| v.v).collect::<Vec<_>>()}));
+                            ctx.violation(&format!("C13|row-permutation-changes-answer|{}", KINDS[kind]), json!({"differs": worst, "condition_number_1norm_of_eliminated_matrix": cond, "permutation": perm, "x": x.iter().map(|v| v.v).collect::<Vec<_>>(), "x_permuted": x2.iter().map(|v| v.v).collect::<Vec<_>>(), "case": case()}));
                             return;
                         }
                     }
